@@ -608,6 +608,8 @@ def errors_oracle(batch, rng=None):
   for r in set(reps):
     if reps.count(r) > errors.MAX_TRACEBACKS:
       return "more than MAX_TRACEBACKS reports for one representation"
+  if report_tokens(real_report(batch)) != report_tokens(real_report(batch)):
+    return "the same errors added in the same order give two different reports"
   if rng is not None:
     # permutation invariance when the relative order at each position is kept
     idx = list(range(len(batch)))
@@ -796,6 +798,14 @@ def gen_program(rng, n_chunks=None):
       chunks.append("p%d = %s().q%d; r%d = %s().s%d" % (i, k, i, i, k, i))          # two errors on one line
     elif c == 9 and funcs:
       chunks.append("t%d = (%s(1, 2, 3, 4), undefined_t%d, 1 + 's')" % (i, rng.choice(funcs), i))
+    elif c == 10 and rng.random() < 0.5:
+      tys = rng.sample(["int", "str", "bytes", "float", "list", "None"], rng.randrange(2, 5))
+      body = []
+      for t in tys:
+        body.append("@typing.overload\ndef o%d(x: %s, y: %s = ...) -> %s: ..." % (i, t, rng.choice(tys), t))
+      body.append("def o%d(x, y=None):\n  return x" % i)
+      body.append("q%d = o%d(%s)" % (i, i, rng.choice(LITS)))
+      chunks.append("\n".join(body))
     elif c == 10:
       chunks.append("def g%d(x):\n  return x + 1\ng%d('a')\ng%d('b')\ng%d(None)\ng%d([1])\ng%d({})" % (i, i, i, i, i, i))
     else:
@@ -927,23 +937,45 @@ def k2_matrix(res, rng, tier, disagreements):
   n_prog, seeds = (25, [0, 1, 2, 3]) if tier == "quick" else (300, [0, 1, 2, 3, 4, 5, 6, 7])
   base = common.seed() * 100 + 1
   seeds = [base + s if common.seed() else s for s in seeds]   # other VERIF_SEEDs explore other hash seeds
-  progs = {"P%03d" % i: gen_program(rng) for i in range(n_prog)}
+  all_progs = {"P%03d" % i: gen_program(rng) for i in range(n_prog)}
   unrelated = [prog_text(gen_program(rng, 5)) for _ in range(12)]
   t0 = time.time()
-  jobs = matrix_jobs({p: prog_text(c) for p, c in progs.items()}, unrelated, seeds,
-                     chunks_per_seed=4 if tier == "quick" else 16)
-  outs = run_children(jobs)
-  table, diffs, infra = compare_matrix(outs)
-  if infra:
-    raise RuntimeError("replay-matrix child failed: %s" % infra[0]["error"])
+  # thorough: waves of 50 programs (each wave is a complete matrix for its programs) until all 300 are done or
+  # the time budget is used up; the number actually covered is what the evidence reports.
+  wave, budget_s = (25, None) if tier == "quick" else (50, float(os.environ.get("C04_MATRIX_BUDGET_S", "840")))
+  pids_all = sorted(all_progs)
+  progs, table, diffs, n_jobs = {}, {}, [], 0
   n_cfg = len(seeds) * len(HISTORIES)
-  incomplete = [p for p in progs if len(table.get(p, {})) != n_cfg]
-  if incomplete:
-    raise RuntimeError("replay matrix incomplete for %s" % incomplete[:3])
+  for w in range(0, len(pids_all), wave):
+    tw = time.time()
+    part = {p: all_progs[p] for p in pids_all[w:w + wave]}
+    jobs = matrix_jobs({p: prog_text(c) for p, c in part.items()}, unrelated, seeds, chunks_per_seed=4)
+    outs = run_children(jobs)
+    tab, dfs, infra = compare_matrix(outs)
+    if infra:
+      raise RuntimeError("replay-matrix child failed: %s" % infra[0]["error"])
+    incomplete = [p for p in part if len(tab.get(p, {})) != n_cfg]
+    if incomplete:
+      raise RuntimeError("replay matrix incomplete for %s" % incomplete[:3])
+    progs.update(part)
+    table.update(tab)
+    diffs += dfs
+    n_jobs += len(jobs)
+    if budget_s is not None and (time.time() - t0) + (time.time() - tw) > budget_s:
+      break
+  n_prog = len(progs)
   for d in diffs:
     d["chunks"] = progs[d["program"]]
     d["kind"] = "replay-matrix-diff"
     disagreements.append(d)
+  not_canon = sorted(p for p in progs if any(r.get("canonical") is not True for r in table[p].values()
+                                              if r.get("outcome") == "ok"))
+  for p in not_canon[:5]:
+    cfgs = sorted(table[p])
+    disagreements.append({"kind": "emitted-ast-not-canonical", "program": p, "chunks": progs[p],
+                          "config_a": cfgs[0], "config_b": cfgs[-1],
+                          "note": "io.generate_pyi_ast returned a tree that CanonicalOrdering still changes "
+                                  "(the pipeline model emits canon(...), a fixpoint by canon_idem)"})
   recs = [table[p][sorted(table[p])[0]] for p in sorted(progs)]
   n_err = [len(r.get("errors") or []) for r in recs]
   same_line = sum(1 for r in recs if len({e[1] for e in (r.get("errors") or [])}) < len(r.get("errors") or []))
@@ -953,9 +985,10 @@ def k2_matrix(res, rng, tier, disagreements):
       "outputs_compared": ["pyi text", "ordered error tuples (name, line, message, file, col, method)",
                            "pickle bytes (PrepareForExport+Serialize)", "gzip pickle bytes (Save compress=True, shifted clock)"],
       "configurations_per_program": n_cfg, "analyses_recorded": sum(len(v) for v in table.values()),
-      "child_processes": len(jobs), "programs_differing": len({d["program"] for d in diffs}),
+      "child_processes": n_jobs, "programs_planned": len(all_progs), "programs_differing": len({d["program"] for d in diffs}),
       "all_byte_identical": not diffs, "wall_s": round(time.time() - t0, 1),
       "programs_ok": sum(1 for r in recs if r.get("outcome") == "ok"),
+      "emitted_asts_not_canonical": len(not_canon),
       "errors_per_program_min_med_max": [min(n_err), sorted(n_err)[len(n_err) // 2], max(n_err)],
       "programs_with_several_errors_on_one_line": same_line,
       "programs_with_union_in_stub": sum(1 for r in recs if "Union[" in (r.get("pyi") or "") or "Optional[" in (r.get("pyi") or "")),
@@ -1118,6 +1151,18 @@ def search(res, rng, disagreements, pfail):
     else:
       entry["reproduced_on_rerun"] = False   # e.g. depends on the wall clock / on more history than the pair replay has
     found.append(entry)
+  # 1b) the emitted tree is not canonical: look for an observable order dependence on that program
+  if not found:
+    for d in [x for x in disagreements if x.get("kind") == "emitted-ast-not-canonical"][:2]:
+      for a, b in [(d["config_a"], d["config_b"]), ("seed=1/after_k", "seed=2/fresh"), ("seed=3/reused_loader", "seed=4/after_k")]:
+        dd = matrix_differs(d["chunks"], a, b, repeats=3)
+        if dd is not None:
+          found.append({"what": "same source and options, different output (emitted tree is not canonically ordered)",
+                        "config_a": a, "config_b": b, "output": dd["output"], "first_diff": dd["diff"],
+                        "program": prog_text(d["chunks"])})
+          break
+      if found:
+        break
   # 2) canonical ordering: oracle on the real visitor around the disagreeing inputs, then fresh inputs
   if any(x.get("kind", "").startswith(("canon", "real-canon")) for x in disagreements) or pfail:
     gen = UnitGen(rng)
@@ -1155,6 +1200,14 @@ def search(res, rng, disagreements, pfail):
 
 
 def main():
+  try:
+    return _main()
+  except (RuntimeError, OSError, subprocess.SubprocessError) as e:   # infrastructure trouble is never a VIOLATION
+    print("ERROR property=C04 infrastructure: %s" % (str(e)[:500],))
+    return 2
+
+
+def _main():
   return common.run_check(
       "C04", REQUIRED, correspond, witnesses, search,
       trusted=[
